@@ -18,7 +18,7 @@ Record schnitz (F : Type) := mkSchnitz {
 Arguments mkSchnitz {F}. Arguments sz_times {F}. Arguments sz_rows {F}. Arguments sz_vols {F}. Arguments sz_parent {F}. Arguments sz_daughters {F}.
 
 Section Worklist.
-  Context {F : Type} (A : Arith F).
+  Context {F : Type} (A : Arith F) (pi2 : F).
   Variables eps9 eps7 eps12 : F.     (* 1E-9, 10e-8, 1E-12 *)
 
   (* SimulateSingleCell(v, timepoints, mode = 1) for grids of one point or more *)
@@ -30,12 +30,12 @@ Section Worklist.
           (* "v.get_initial_time() >= timepoints[0]": the current state is returned as the only row *)
           Done (mkLst (cs_time c) [] (cs_x c) (si_params (sm_if (ln_sim l))) true pos [cs_x c] [cs_V c] t (cs_V c) (-1)%Z (-1)%Z true)
         else
-          match lssa_loop A eps9 eps7 fuel l (fsub A t (cs_time c)) t (cs_t0 c) (cs_V0 c) u
+          match lssa_loop A pi2 eps9 eps7 fuel l (fsub A t (cs_time c)) t (cs_t0 c) (cs_V0 c) u
                   (mkLst (cs_time c) ts (cs_x c) (si_params (sm_if (ln_sim l))) true pos [] [] t (cs_V c) (-1)%Z (-1)%Z false) with
           | Done st => Done (lssa_finish A st)
           | OutOfFuel => OutOfFuel | Fault w => Fault w
           end
-    | _ => lssa_simulate A eps9 eps7 fuel l ts (cs_time c) (cs_t0 c) (cs_V c) (cs_V0 c) (cs_x c) u pos
+    | _ => lssa_simulate A pi2 eps9 eps7 fuel l ts (cs_time c) (cs_t0 c) (cs_V c) (cs_V0 c) (cs_x c) u pos
     end.
 
   (* SingleCellSSAResult.get_final_cell_state: last reported row; "birth" time and volume = first reported ones *)
